@@ -927,7 +927,7 @@ def _cmp_nodes(src, cp, mapping, case, path, fails, masked, top):
     d = _first_diff(st, ct)
     if d:
         key = "copy-type-differs"
-        if top and o["name"] is not None and d == "/name" and (ct or {}).get("name") == o["name"]:
+        if o["name"] is not None and d == "/name" and (ct or {}).get("name") == o["name"]:
             key = "copy-name-override-renames-type"
         fails.append({"key": key, "what": f"{path}: entity type {d}: source {str((st or {}).get(d[1:]))[:40]} copy {str((ct or {}).get(d[1:]))[:40]}"})
 
@@ -1110,7 +1110,7 @@ def oracle(case, obs):
     curve_clear = case["opts"]["clear_cache"] and _has_curve(obs["src_reloaded"])
     if obs.get("src_after") is not None and _first_diff(src0, _drop_ids(obs["src_after"])):
         dd = _only_metadata_differs(src0, _drop_ids(obs["src_after"]))
-        key = "curve-clear-cache-regenerates-source-cells" if dd == {"cells"} and curve_clear else "source-changed-by-copy:" + ",".join(sorted(dd))
+        key = "curve-clear-cache-regenerates-source-cells" if dd and dd <= {"cells", "values"} and curve_clear else "source-changed-by-copy:" + ",".join(sorted(dd))
         fails.append({"key": key, "what": "source subtree differs after copy at " + str(_first_diff(src0, _drop_ids(obs["src_after"])))})
     if _first_diff(_drop_ids(obs["by_before"]), _drop_ids(obs["by_after"])):
         fails.append({"key": "bystander-changed-by-copy", "what": "an unrelated entity changed during the copy"})
@@ -1153,7 +1153,7 @@ def oracle(case, obs):
         fails.append({"key": key, "what": "per-node digests of the source entities in the file changed"})
     if obs.get("src_reopened") is None or _first_diff(src0, _drop_ids(obs["src_reopened"])):
         dd = _only_metadata_differs(src0, _drop_ids(obs["src_reopened"])) if obs.get("src_reopened") else {"missing"}
-        key = "curve-clear-cache-regenerates-source-cells" if dd == {"cells"} and curve_clear else "source-differs-after-reopen:" + ",".join(sorted(dd))
+        key = "curve-clear-cache-regenerates-source-cells" if dd and dd <= {"cells", "values"} and curve_clear else "source-differs-after-reopen:" + ",".join(sorted(dd))
         fails.append({"key": key, "what": "source read back from the file differs at " + str(_first_diff(src0, _drop_ids(obs["src_reopened"])) if obs.get("src_reopened") else "missing")})
     return fails
 
